@@ -8,7 +8,9 @@ import os
 import re
 import shutil
 
+from checks import cov_cfg
 from checks import merge_common as mc
+from checks import pairwise
 from vlib import core
 
 THEOREMS = ["C19_normal_form", "C19_fields", "C19_reject_iff", "C19_paths", "C19_not_found", "C19_spec", "C19_old_refuted"]
@@ -203,6 +205,14 @@ def write_case(root, cfg, files):
     return out
 
 
+def materialise(cfg, files, d):
+    """an absolute locales-dir is generated as a placeholder below the case directory"""
+    if cfg["locales_dir"] is None or not cfg["locales_dir"].startswith(cov_cfg.ABS):
+        return cfg, files
+    cfg = dict(cfg, locales_dir=cfg["locales_dir"].replace(cov_cfg.ABS, d))
+    return cfg, [f.replace(cov_cfg.ABS, d) for f in files]
+
+
 def S(s):
     return core.coq_str(s)
 
@@ -276,19 +286,33 @@ def run(ctx):
     ok, problems = core.coq_audit(ctx, PROPS, THEOREMS)
     rng = ctx.rng
     n = 700 if ctx.quick else 8000
-    cases = [("corpus", "json", c) for c in corpus()]
+    cases = [{"kind": "corpus", "fmt": "json", "cfg": c} for c in corpus()]
     for i in range(n):
         fmt = "json" if i % 2 == 0 else rng.choice(["yaml", "json5"])
-        cases.append(("random", fmt, gen_cfg(rng)))
+        cases.append({"kind": "random", "fmt": fmt, "cfg": gen_cfg(rng)})
+    for c in cases:
+        c["files"] = layout(rng, c["cfg"], c["fmt"])
+    # pairwise coverage of the quantifier's dimensions; directed cases fill the empty feasible cells
+    table = pairwise.Table(cov_cfg.DIMS, cov_cfg.infeasible)
+    pairwise.add_all(table, [o for c in cases for o in cov_cfg.tags(c["cfg"], c["fmt"], c["files"])])
+    gaps_before = ["%s=%s x %s=%s" % g for g in table.gaps()]
+    directed = pairwise.greedy(table, rng, cov_cfg.draw, lambda sc: cov_cfg.build(rng, sc),
+                               lambda c: cov_cfg.tags(c["cfg"], c["fmt"], c["files"]), max_tries=20000, max_keep=600)
+    cases += [dict(c, kind="directed") for c in directed]
+    pw = table.report()
+    pw["zero_cells_before_directed_cases"] = gaps_before[:120]
+    pw["zero_cells_before_directed_cases_count"] = len(gaps_before)
+    pw["directed_cases"] = len(directed)
     root = os.path.join(ctx.work, "cfg")
     by_fmt = {}
     metas = []
-    for i, (kind, fmt, cfg) in enumerate(cases):
+    for i, c in enumerate(cases):
         d = os.path.join(root, "c%d" % i)
-        files = write_case(d, cfg, layout(rng, cfg, fmt))
-        m = {"kind": kind, "fmt": fmt, "cfg": cfg, "dir": d, "existing": files, "cargo_toml": render(cfg)}
+        cfg, rel = materialise(c["cfg"], c["files"], d)
+        files = write_case(d, cfg, rel)
+        m = {"kind": c["kind"], "fmt": c["fmt"], "cfg": cfg, "dir": d, "existing": files, "cargo_toml": render(cfg)}
         metas.append(m)
-        by_fmt.setdefault(fmt, []).append(m)
+        by_fmt.setdefault(c["fmt"], []).append(m)
     for fmt, ms in by_fmt.items():
         lines = mc.run_harness(exes[fmt], [m["dir"] for m in ms], mode="cfg")
         for m, line in zip(ms, lines):
@@ -363,10 +387,10 @@ def run(ctx):
         "traces_validated_against_impl": len(metas), "disagreements": len(dis), "spec_failures_on_impl": len(bad),
         "skipped_outside_model": len(skipped), "inherits_subtable_cases_diverging": len(sub_bad),
         "inherits_subtable_cases": sum(1 for m in metas if is_subtable(m)),
-        "input_distribution": hist, "audit_problems": problems,
+        "input_distribution": hist, "audit_problems": problems, "pairwise": pw,
     }, assumptions=[
         "the toml crate and the textual section split are exercised through generated manifests, not modelled",
-        "names contain no '.' or '/', locales-dir is relative (else the case is counted as skipped)"])
+        "names contain no '.' or '/' (else the case is counted as skipped)"])
 
 
 def is_subtable(m):
